@@ -49,7 +49,9 @@ def store(name, shape):
 def active_p(name, size, m):
     """a probability vector satisfying ACTIVE: non-zero exactly on [0, m)"""
     u = z3.Function(name, z3.IntSort(), z3.RealSort())
-    return SArr((size,), lambda k: z3.If(zint(k) < m, 1 + u(zint(k)) * u(zint(k)), z3.RealVal(0)), "real")
+    # any positive real (not only values >= 1: real probabilities are 1 / count), without a side axiom
+    pos = lambda k: z3.If(u(zint(k)) > 0, u(zint(k)), 1 - u(zint(k)))
+    return SArr((size,), lambda k: z3.If(zint(k) < m, pos(k), z3.RealVal(0)), "real")
 
 
 def rarp():
@@ -106,17 +108,36 @@ def executor():
     return ex
 
 
+def _count_sizes(kind):
+    return {"ODE": [(nt, nt0 + J * selt)], "statio": [(n, n0 + J * selx)], "nonstatio": [(nt, nt0 + J * selt), (n, n0 + J * selx)]}[kind]
+
+
 def counting_lemma(ex, kind):
-    """count_nonzero(p == 0) = size - active, for the ACTIVE vectors built by gen() (trusted counting lemma)"""
+    """count_nonzero(mask) = size - active when mask is true exactly on the inactive slots [m, size) of the ACTIVE
+    vectors built by gen() (trusted: counting an interval); that the counted mask *is* that set is `counting_goals`"""
     ax = []
-    sizes = {"ODE": [(nt, nt0 + J * selt)], "statio": [(n, n0 + J * selx)], "nonstatio": [(nt, nt0 + J * selt), (n, n0 + J * selx)]}[kind]
-    for (cnt, arr), (size, m) in zip(getattr(ex, "counts", []), sizes):
+    for (cnt, arr), (size, m) in zip(getattr(ex, "counts", []), _count_sizes(kind)):
         ax.append(cnt == size - m)
     return ax
 
 
+def counting_goals(ex, kind):
+    """what the code counts is the set of inactive slots (probability exactly zero), for every admissible probability
+    vector: an active slot may carry any positive probability, however small"""
+    k = z3.Int("slot")
+    goals = []
+    for q, ((cnt, arr), (size, m)) in enumerate(zip(getattr(ex, "counts", []), _count_sizes(kind))):
+        if not isinstance(arr, SArr):
+            goals.append((f"counted_mask[{q}]_is_an_array", z3.BoolVal(False)))
+            continue
+        goals.append((f"counted_slots[{q}]_are_exactly_the_inactive_ones",
+                      z3.Implies(z3.And(k >= 0, k < size), pyvc.zbool(arr.elem(k)) == (k >= m))))
+    return goals
+
+
 def result(name, goals, pre, ex, t0, extra_axioms=(), canary=None):
     """discharge named goals; the executor's side obligations (loop contracts, positive divisors ...) are goals too"""
+    extra_axioms = list(extra_axioms) + list(getattr(ex, "extra_axioms", []))       # facts of library models (e.g. finfo.eps > 0)
     for nm, g in goals:
         st, model = prove(g, pre, axioms=list(extra_axioms), timeout_ms=30000)
         if st != "unsat":
@@ -201,7 +222,7 @@ def ob_proceed(kind, zero=None):
         if zero is not None:
             z_ = selt if zero == "t" else selx
             pre = [p_ for p_ in pre if not (z3.is_ge(p_) and p_.arg(0).eq(z_))] + [z_ == 0]
-        return result(name, [("fires_iff", fires == spec)], pre, ex, t0, extra_axioms=counting_lemma(ex, kind),
+        return result(name, counting_goals(ex, kind) + [("fires_iff", fires == spec)], pre, ex, t0, extra_axioms=counting_lemma(ex, kind),
                       canary=fires == z3.And(it > start, c == every - 1, *cap))
     return FnObligation(name, run, [RAR + "_proceed_to_rar"])
 
@@ -415,7 +436,7 @@ def ob_trigger(kind):
             cap.append(selx <= n - (n0 + J * selx))
         fires = z3.And(it >= start, c == every - 1, *cap)
         goal = zint(d2.fields["rar_iter_nb"]) == z3.If(fires, J + 100, J - 100)
-        return result(name, [("dispatch", goal)], BASE_PRE.of(kind) + list(o.pc), ex, t0, extra_axioms=counting_lemma(ex, kind),
+        return result(name, counting_goals(ex, kind) + [("dispatch", goal)], BASE_PRE.of(kind) + list(o.pc), ex, t0, extra_axioms=counting_lemma(ex, kind),
                       canary=zint(d2.fields["rar_iter_nb"]) == z3.If(fires, J - 100, J + 100))
     return FnObligation(name, run, [RAR + "trigger_rar", RAR + "_proceed_to_rar"],
                         native_fallback=lambda: _safe_native(native_trigger_returns_params) or native_rar_monitor({}))
